@@ -21,12 +21,14 @@ import Fcgi.Props.C07Unread4
 import Fcgi.Props.C06
 import Fcgi.Props.C06Suff
 import Fcgi.Props.C06E2E
+import Fcgi.Props.C06Unbounded
 import Fcgi.Props.C07
 import Fcgi.Props.C07E2E
 import Fcgi.Props.C07Authorizer
 import Fcgi.Props.C07BufRead
 import Fcgi.Props.C07BufRead2
 import Fcgi.Props.C07Unbounded
+import Fcgi.Props.C07Writers
 import Fcgi.Props.C08
 import Fcgi.Props.C08Inv
 import Fcgi.Props.C08Replies
@@ -58,6 +60,7 @@ import Fcgi.Props.C12E2E7
 import Fcgi.Props.C12E2E8
 import Fcgi.Props.C12E2E9
 import Fcgi.Props.C12Fuel
+import Fcgi.Props.C12Unbounded
 import Fcgi.Props.C13
 import Fcgi.Props.C13Conn
 import Fcgi.Props.C14b
@@ -67,15 +70,15 @@ import Fcgi.Props.NonVacuity
 import Fcgi.Props.C14E2E
 import Fcgi.Props.C14E2E2
 import Fcgi.Props.C14E2E3
+import Fcgi.Props.C14Unbounded
 import Fcgi.Props.C15
 import Fcgi.Props.C16
 import Fcgi.Props.C17
 import Fcgi.Props.C18
 import Fcgi.Props.C19
 import Fcgi.Props.C20
-import Fcgi.Props.C12Unbounded
-import Fcgi.Props.C14Unbounded
-import Fcgi.Props.C06Unbounded
+import Fcgi.Props.C11FilterAnysize
+import Fcgi.Props.C07Writers2
 
 /-!
 # Headline — one checked statement per property
@@ -101,9 +104,14 @@ error answers (arbitrary read/write splitting, transient Pendings) — faults ar
 management GetValues bodies whose undecodable tail fits the buffer; the CANONICAL handler families
 only (named per clause); single request unless a clause says otherwise.  The end-to-end conjuncts of C06, C07, C11, C12 and C14 are the
 `_unbounded` versions (`Props/C06Unbounded.lean`, `Props/C07Unbounded.lean`, `Props/E2EUnbounded.lean`,
-`Props/C12Unbounded.lean`, `Props/C14Unbounded.lean`): no bound on the wire length or the buffer size; what is left of the model-fuel
-hypothesis `hhf` bounds only the length of the handler's own output (`wcost |data| + c ≤ 1000`), except the
-Filter-abort rows (a)/(b) inside `filter_abort_table_full_unbounded`, which keep `|Stdin wire| ≤ 31000`.
+`Props/C12Unbounded.lean`, `Props/C14Unbounded.lean`): no bound on the wire length or the buffer size; what is left is the
+model-fuel hypothesis `hhf`: the model interprets a handler script with a per-poll fuel `1000 + …` that does not grow
+with the script, so `hhf` bounds the COST of the handler script — one unit per script operation and per output
+record: `wcost |data| + c ≤ 1000` (output records of the one `write_all`), `2·n + …` (the number of `fill_buf` /
+`consume` rounds of the `AsyncBufRead` clauses, i.e. the number of READS), `wcostAll W` / `fcost W` (the number of
+writes, flushes and output records of the two-writer clauses).  It is an artefact of the model
+(`Props/HeadlineUnb.lean`, section B), not of the crate.  `C11Clause7` is the `_anysize` table of
+`Props/C11FilterAnysize.lean` (no `|Stdin wire| ≤ 31000`).
 
 So this file type-checks only as long as the cited theorems keep stating what is written here.
 Nothing new is proved.  Everything is about the Lean MODEL of the crate; that the model is the code
@@ -1473,9 +1481,14 @@ end Fcgi.Headline
 * “for every way the transport splits or delays reads and writes; handler families” — every e2e clause: `Ben
   t` (arbitrary splitting, transient Pendings, no faults) and the canonical handler family: `readAll` + one
   Stdout `write_all` + `ret` (Clauses 1–4), non-reading / prefix-reading (6–9), `AsyncBufRead` handlers
-  (Clauses 10–12).  All e2e clauses are the `_unbounded` versions (`Props/C07Unbounded.lean`,
-  `Props/E2EUnbounded.lean`): no bound on the wire length, `hhf` bounds only the handler's own write (a
-  harness-script fuel).
+  (Clauses 10–12), two writers with any sequence of `write_all`s and `flush`es (Clauses 13–16,
+  `Props/C07Writers.lean`, `C07Writers2.lean`).  All e2e clauses are size-free (`Props/C07Unbounded.lean`,
+  `Props/E2EUnbounded.lean`): no bound on the wire length or the buffer; `hhf` is the model's per-poll
+  handler fuel, which does not grow with the script: it bounds the COST of the handler script — one unit per
+  operation and per output record: `wcost |data|` (Clauses 1–3, 6, 8), the number of `fill_buf`/`consume`
+  rounds `2·n` (Clauses 10–12; Clause 10 also needs `|content| ≤ n`), the number of writes, flushes and
+  output records `wcostAll W` / `fcost W` (Clauses 13–16).  Clauses 15–16 also need `hfl` (no error among
+  the flush answers) and `hmore` (later scripts propagate errors; forced by the proof).
 
 **The conjuncts of `C07_headline`.**
 1. `C07E.single_request_e2e_unbounded` — Responder, canonical handler, any benign transport, ANY wire
@@ -1501,6 +1514,13 @@ end Fcgi.Headline
    bound
 12. `C07B.bufread_part_e2e_unbounded` — a handler that consumes only part of what `fill_buf` showed, no size
    bound
+13. `C07W.single_request_writers_e2e` — TWO writers (Stdout, Stderr), ANY sequence of `write_all`s (empty,
+   or longer than 65 535 bytes = several records): every write is on the wire exactly once, in script order,
+   records never interleaved; no size bound
+14. `C07W.writers_chain_e2e` — … and with KEEP_CONN the connection then serves the following requests
+15. `C07W.single_request_writers_flush_e2e` — … with `flush` calls anywhere in the script and arbitrary
+   Pending/Ok flush answers: a flush contributes no byte
+16. `C07W.writers_flush_chain_e2e` — … chain step of the flush variant
 
 **Modelling assumptions (obligations.json).**
 * executor fairness, real sockets and wakers beyond the harness' flag/counting wakers are outside the model
@@ -1512,8 +1532,8 @@ end Fcgi.Headline
   `data` to Stdou…
 
 **Not proved as theorems — carried by the differential run + oracle, or trusted.**
-* handlers outside those families (Stderr writes, several writers, multi-chunk output) and transports with
-  faults (C12) are enumerated by the differential run + oracle
+* handlers outside those families (more than two writers, writes interleaved with reads, writers kept alive
+  at return) and transports with faults (C12) are enumerated by the differential run + oracle
 * executor fairness, real sockets and wakers are outside the model
 
 -/
@@ -1829,6 +1849,128 @@ theorem C07Clause12_holds : C07Clause12 := by
 end Fcgi.C07B
 end
 
+section
+namespace Fcgi.C07W
+open Fcgi Fcgi.Req Fcgi.Str Fcgi.Async Fcgi.Run Fcgi.Spec Fcgi.E2E Fcgi.C07E Fcgi.C07U Fcgi.C07B
+/-- TWO writers (Stdout, Stderr), ANY sequence of `write_all`s (empty, or longer than 65 535 bytes = several records): every write is on the wire exactly once, in script order, records never interleaved; no size bound  (= `Fcgi.C07W.single_request_writers_e2e`, `Props/C07Writers.lean`) -/
+def C07Clause13 : Prop :=
+  ∀ {p : Preamble} {recs : List Rec} {content : Bytes} {srecs : List Rec}
+    {b mc : Nat} {W : WList} {st : ExitStatus} {more : List (List HOp × Bool)} {t : Transport} {fuel : Nat}
+    (hwf : WellFormedPreamble p recs) (hrole : p.role = 1)
+    (hpairs : ∀ q ∈ p.pairs, (NV.enc q).length ≤ alignedBufsize b)
+    (hnoise : NoiseFits (alignedBufsize b) recs)
+    (hs : StreamRecs p.id 5 content srecs) (hsn : NoiseFits (alignedBufsize b) srecs)
+    (hin : t.input = serAll recs ++ serAll srecs) (hben : Ben t) (hev : hsCount t.events = 0)
+    (hfuel : t.rd.length + t.wr.length + 1 ≤ fuel)
+    (hhf : wcostAll W + 20 ≤ 1000),
+    ∃ c' fin O₁ O₂ pad res,
+      runTask fuel (connS b mc t ((wscript W st, true) :: more)) 0 none = (c', fin) ∧
+      O₁ ++ O₂ = owedStream p.id 5 mc srecs ∧
+      WritersOutcome p recs content W O₁ O₂ pad res b mc st more t c' fin
+
+theorem C07Clause13_holds : C07Clause13 := by
+  unfold C07Clause13
+  exact @single_request_writers_e2e
+
+end Fcgi.C07W
+end
+
+section
+namespace Fcgi.C07W
+open Fcgi Fcgi.Req Fcgi.Str Fcgi.Async Fcgi.Run Fcgi.Spec Fcgi.E2E Fcgi.C07E Fcgi.C07U Fcgi.C07B
+/-- … and with KEEP_CONN the connection then serves the following requests  (= `Fcgi.C07W.writers_chain_e2e`, `Props/C07Writers.lean`) -/
+def C07Clause14 : Prop :=
+  ∀ {p : Preamble} {recs : List Rec} {content : Bytes} {srecs : List Rec}
+    {b mc : Nat} {W : WList} {st : ExitStatus} (x : UReq) (xs : List UReq) {t : Transport} {fuel : Nat}
+    (hwf : WellFormedPreamble p recs) (hrole : p.role = 1) (hk : p.flags.toNat % 2 = 1)
+    (hpairs : ∀ q ∈ p.pairs, (NV.enc q).length ≤ alignedBufsize b)
+    (hnoise : NoiseFits (alignedBufsize b) recs)
+    (hs : StreamRecs p.id 5 content srecs) (hsn : NoiseFits (alignedBufsize b) srecs)
+    (hok : ∀ y ∈ x :: xs, y.OKu b)
+    (hin : t.input = serAll recs ++ serAll srecs) (hben : Ben t) (hem : t.endMode = .pend)
+    (hev : hsCount t.events = 0) (hfuel : t.rd.length + t.wr.length + 1 ≤ fuel)
+    (hhf : wcostAll W + 20 ≤ 1000),
+    ∃ c' O₁ O₂ A,
+      closedLoop fuel ((x :: xs).map UReq.wire)
+        (connS b mc t ((wscript W st, true) :: (x :: xs).map UReq.handler)) 0 = (c', "STALL") ∧
+      O₁ ++ O₂ = owedStream p.id 5 mc srecs ∧
+      SegsAll mc (x :: xs) A ∧
+      c'.env.tr.wlog = t.wlog ++ expectedLogW p recs mc W st O₁ O₂ ++ A ∧
+      hsCount c'.env.tr.events = 1 + (x :: xs).length ∧
+      startEvent p.request ∈ c'.env.tr.events ∧ readEvent content ∈ c'.env.tr.events ∧
+      (∀ y ∈ x :: xs, startEvent y.p.request ∈ c'.env.tr.events) ∧ c'.scripts = [] ∧
+      c'.env.tr.input = [] ∧
+      c'.phase = .parseReq (track (alignedBufsize b) mc (serAll ((x :: xs).getLast (by simp)).left)) .reading
+
+theorem C07Clause14_holds : C07Clause14 := by
+  unfold C07Clause14
+  exact @writers_chain_e2e
+
+end Fcgi.C07W
+end
+
+section
+namespace Fcgi.C07W
+open Fcgi Fcgi.Req Fcgi.Str Fcgi.Async Fcgi.Run Fcgi.Spec Fcgi.E2E Fcgi.C07E Fcgi.C07U Fcgi.C07B
+/-- … with `flush` calls anywhere in the script and arbitrary Pending/Ok flush answers: a flush contributes no byte  (= `Fcgi.C07W.single_request_writers_flush_e2e`, `Props/C07Writers2.lean`) -/
+def C07Clause15 : Prop :=
+  ∀ {p : Preamble} {recs : List Rec} {content : Bytes} {srecs : List Rec}
+    {b mc : Nat} {W : FList} {st : ExitStatus} {more : List (List HOp × Bool)} {t : Transport} {fuel : Nat}
+    (hwf : WellFormedPreamble p recs) (hrole : p.role = 1)
+    (hpairs : ∀ q ∈ p.pairs, (NV.enc q).length ≤ alignedBufsize b)
+    (hnoise : NoiseFits (alignedBufsize b) recs)
+    (hs : StreamRecs p.id 5 content srecs) (hsn : NoiseFits (alignedBufsize b) srecs)
+    (hin : t.input = serAll recs ++ serAll srecs) (hben : Ben t) (hev : hsCount t.events = 0)
+    (hfl : ∀ a ∈ t.fl, a ≠ FlAns.err) (hmore : ∀ s ∈ more, s.2 = true)
+    (hfuel : t.rd.length + t.wr.length + t.fl.length + 1 ≤ fuel)
+    (hhf : fcost W + 20 ≤ 1000),
+    ∃ c' fin O₁ O₂ pad res,
+      runTask fuel (connS b mc t ((fscriptW W st, true) :: more)) 0 none = (c', fin) ∧
+      O₁ ++ O₂ = owedStream p.id 5 mc srecs ∧
+      WritersOutcome p recs content (E2E.writesOf W) O₁ O₂ pad res b mc st more t c' fin
+
+theorem C07Clause15_holds : C07Clause15 := by
+  unfold C07Clause15
+  exact @single_request_writers_flush_e2e
+
+end Fcgi.C07W
+end
+
+section
+namespace Fcgi.C07W
+open Fcgi Fcgi.Req Fcgi.Str Fcgi.Async Fcgi.Run Fcgi.Spec Fcgi.E2E Fcgi.C07E Fcgi.C07U Fcgi.C07B
+/-- … chain step of the flush variant  (= `Fcgi.C07W.writers_flush_chain_e2e`, `Props/C07Writers2.lean`) -/
+def C07Clause16 : Prop :=
+  ∀ {p : Preamble} {recs : List Rec} {content : Bytes} {srecs : List Rec}
+    {b mc : Nat} {W : FList} {st : ExitStatus} (x : UReq) (xs : List UReq) {t : Transport} {fuel : Nat}
+    (hwf : WellFormedPreamble p recs) (hrole : p.role = 1) (hk : p.flags.toNat % 2 = 1)
+    (hpairs : ∀ q ∈ p.pairs, (NV.enc q).length ≤ alignedBufsize b)
+    (hnoise : NoiseFits (alignedBufsize b) recs)
+    (hs : StreamRecs p.id 5 content srecs) (hsn : NoiseFits (alignedBufsize b) srecs)
+    (hok : ∀ y ∈ x :: xs, y.OKu b)
+    (hin : t.input = serAll recs ++ serAll srecs) (hben : Ben t) (hem : t.endMode = .pend)
+    (hev : hsCount t.events = 0) (hfl : ∀ a ∈ t.fl, a ≠ FlAns.err)
+    (hfuel : t.rd.length + t.wr.length + t.fl.length + 1 ≤ fuel)
+    (hhf : fcost W + 20 ≤ 1000),
+    ∃ c' O₁ O₂ A,
+      closedLoop fuel ((x :: xs).map UReq.wire)
+        (connS b mc t ((fscriptW W st, true) :: (x :: xs).map UReq.handler)) 0 = (c', "STALL") ∧
+      O₁ ++ O₂ = owedStream p.id 5 mc srecs ∧
+      SegsAll mc (x :: xs) A ∧
+      c'.env.tr.wlog = t.wlog ++ expectedLogW p recs mc (E2E.writesOf W) st O₁ O₂ ++ A ∧
+      hsCount c'.env.tr.events = 1 + (x :: xs).length ∧
+      startEvent p.request ∈ c'.env.tr.events ∧ readEvent content ∈ c'.env.tr.events ∧
+      (∀ y ∈ x :: xs, startEvent y.p.request ∈ c'.env.tr.events) ∧ c'.scripts = [] ∧
+      c'.env.tr.input = [] ∧
+      c'.phase = .parseReq (track (alignedBufsize b) mc (serAll ((x :: xs).getLast (by simp)).left)) .reading
+
+theorem C07Clause16_holds : C07Clause16 := by
+  unfold C07Clause16
+  exact @writers_flush_chain_e2e
+
+end Fcgi.C07W
+end
+
 namespace Fcgi.Headline
 /-- **C07** — see the section comment above for the clause-by-clause reading. -/
 theorem C07_headline :
@@ -1843,8 +1985,12 @@ theorem C07_headline :
     Fcgi.C07U.C07Clause9 ∧
     Fcgi.C07B.C07Clause10 ∧
     Fcgi.C07B.C07Clause11 ∧
-    Fcgi.C07B.C07Clause12 :=
-  ⟨Fcgi.C07E.C07Clause1_holds, Fcgi.C07E.C07Clause2_holds, Fcgi.C07E.C07Clause3_holds, Fcgi.C07E.C07Clause4_holds, Fcgi.Headline.C07Clause5_holds, Fcgi.C07U.C07Clause6_holds, Fcgi.C07U.C07Clause7_holds, Fcgi.C07U.C07Clause8_holds, Fcgi.C07U.C07Clause9_holds, Fcgi.C07B.C07Clause10_holds, Fcgi.C07B.C07Clause11_holds, Fcgi.C07B.C07Clause12_holds⟩
+    Fcgi.C07B.C07Clause12 ∧
+    Fcgi.C07W.C07Clause13 ∧
+    Fcgi.C07W.C07Clause14 ∧
+    Fcgi.C07W.C07Clause15 ∧
+    Fcgi.C07W.C07Clause16 :=
+  ⟨Fcgi.C07E.C07Clause1_holds, Fcgi.C07E.C07Clause2_holds, Fcgi.C07E.C07Clause3_holds, Fcgi.C07E.C07Clause4_holds, Fcgi.Headline.C07Clause5_holds, Fcgi.C07U.C07Clause6_holds, Fcgi.C07U.C07Clause7_holds, Fcgi.C07U.C07Clause8_holds, Fcgi.C07U.C07Clause9_holds, Fcgi.C07B.C07Clause10_holds, Fcgi.C07B.C07Clause11_holds, Fcgi.C07B.C07Clause12_holds, Fcgi.C07W.C07Clause13_holds, Fcgi.C07W.C07Clause14_holds, Fcgi.C07W.C07Clause15_holds, Fcgi.C07W.C07Clause16_holds⟩
 end Fcgi.Headline
 
 
@@ -2631,8 +2777,9 @@ end Fcgi.Headline
 * “input delivered before the error is a prefix of what the client sent, an AbortRequest for any other id is
   ignored, and with keep-connection the same connection then serves the next request” — Clauses 4–6
   (`abort_mid_stream_prefix_e2e_unbounded`, `foreign_abort_ignored_e2e_unbounded`,
-  `abort_mid_stream_next_e2e_unbounded`); Clause 7 (`filter_abort_table_full_unbounded`): every abort
-  placement × handler row for a Filter, exactly one EndRequest each.
+  `abort_mid_stream_next_e2e_unbounded`); Clause 7 (`filter_abort_table_full_anysize`,
+  `Props/C11FilterAnysize.lean`: no bound on the Stdin wire either): every abort placement × handler row for
+  a Filter, exactly one EndRequest each.
 * “Responder cells beyond the canonical reading handler” — Clauses 8–11: abort in Params with nothing behind
   it, own status + KEEP_CONN, `close` tolerating the aborted state at poll level (handler not reading / past
   end-of-stream: no e2e theorem), the error kind.
@@ -2647,7 +2794,7 @@ end Fcgi.Headline
    sent
 5. `C11E.foreign_abort_ignored_e2e_unbounded` — an AbortRequest for another id is ignored
 6. `C11E.abort_mid_stream_next_e2e_unbounded` — with KEEP_CONN the connection serves the next request
-7. `C11F.filter_abort_table_full_unbounded` — Filter: every placement of the abort × handler row
+7. `C11F.filter_abort_table_full_anysize` — Filter: every placement of the abort × handler row, any sizes
 8. `C11E.abort_in_params_alone_e2e_unbounded` — abort inside Params with nothing behind it
 9. `C11E.abort_own_status_next_e2e_unbounded` — own status + KEEP_CONN: the next request is served
 10. `C11.close_tolerates_abort` — poll level: a Responder that does not read / is past end-of-stream —
@@ -2836,7 +2983,7 @@ end
 section
 namespace Fcgi.C11F
 open Fcgi Fcgi.Req Fcgi.Str Fcgi.Async Fcgi.Run Fcgi.Spec Fcgi.E2E Fcgi.C07E Fcgi.C07U
-/-- Filter: every placement of the abort × handler row  (= `Fcgi.C11F.filter_abort_table_full_unbounded`, `Props/E2EUnbounded.lean`) -/
+/-- Filter: every placement of the abort × handler row, any sizes  (= `Fcgi.C11F.filter_abort_table_full_anysize`, `Props/C11FilterAnysize.lean`) -/
 def C11Clause7 : Prop :=
   (∀ {p : Preamble} {recs sbody dbody : List Rec} {pad : Bytes} {res : UInt8} {a : Rec} {post : List Rec}
       {b mc : Nat} {content c2 : Bytes} {st : ExitStatus} {more : List (List HOp × Bool)} {t : Transport}
@@ -2869,7 +3016,7 @@ def C11Clause7 : Prop :=
       IsAbort p.id a → (∀ r ∈ post, r.WF) → NoiseFits (alignedBufsize b) post →
       (∀ r ∈ post, r.rtype.toNat ≠ RT.beginRequest) →
       t.input = serAll recs ++ (serAll (pre ++ [a]) ++ serAll post) → Ben t → hsCount t.events = 0 →
-      t.rd.length + t.wr.length + 1 ≤ fuel → (serAll (pre ++ [a]) ++ serAll post).length ≤ 31000 →
+      t.rd.length + t.wr.length + 1 ≤ fuel →
       ∃ c' fin, runTask fuel (connS b mc t ((rscript s0, pr) :: more)) 0 none = (c', fin) ∧
         EndOnce p recs mc (closeStatus pr s0) t c') ∧
     (∀ {p : Preamble} {recs sbody mid : List Rec} {pad : Bytes} {res : UInt8} {a : Rec} {post : List Rec}
@@ -2881,7 +3028,7 @@ def C11Clause7 : Prop :=
       IsAbort p.id a → (∀ r ∈ post, r.WF) → NoiseFits (alignedBufsize b) post →
       (∀ r ∈ post, r.rtype.toNat ≠ RT.beginRequest) →
       t.input = serAll recs ++ gapX p.id sbody pad res mid a post → Ben t → hsCount t.events = 0 →
-      t.rd.length + t.wr.length + 1 ≤ fuel → (gapX p.id sbody pad res mid a post).length ≤ 31000 →
+      t.rd.length + t.wr.length + 1 ≤ fuel →
       ∃ c' fin, runTask fuel (connS b mc t ((rscript s0, pr) :: more)) 0 none = (c', fin) ∧
         EndOnce p recs mc (closeStatus pr s0) t c') ∧
     (∀ {p : Preamble} {recs sbody dbody : List Rec} {pad : Bytes} {res : UInt8} {a : Rec} {post : List Rec}
@@ -2900,7 +3047,7 @@ def C11Clause7 : Prop :=
 
 theorem C11Clause7_holds : C11Clause7 := by
   unfold C11Clause7
-  exact @filter_abort_table_full_unbounded
+  exact @filter_abort_table_full_anysize
 
 end Fcgi.C11F
 end
